@@ -40,6 +40,18 @@ CHECKS = {
     'C19': dict(engine='tlc-eaotime', technique='TLC enumeration of the EAOTime specification (all grid / window / coarse / interval-list calls, C19 clauses as invariants) + exact comparison of every specified result with the real Timegrid call', cat='model_checking', ref='DESIGN.md 4 (C19), 2.1',
                 text='EAOTime (absolute hour ticks, one-switch zones, fixed vs calendar frequencies, Restrict, Coarse, Assign) is enumerated over all (zone, frequency, start, end, main time unit) cases around the real CET switches of 2021, all restriction windows, coarse frequencies and interval lists; TLC checks Increasing, StartsAtStart, BeforeEnd, StepLenTrue, CumLenTrue, RestrictDef, CoarsePartition, AssignDef in every state and emits the expected result of each call; the real Timegrid / set_restricted_grid / values_to_grid / prices_to_grid is called with the same arguments and compared exactly (rationals).',
                 note='pandas calendar arithmetic trusted for ticks -> timestamps; non-existing / ambiguous local hours are not used as inputs; one zone (CET).'),
+    'C09': dict(engine='tlc-eaomodel', technique=P_TECH + '; symmetry of the specification by two TLC enumerations; realisation under permutations and adversarial renamings', cat='model_checking', ref='DESIGN.md 4 (C09)',
+                text='Specification level: for every configuration TLC enumerates it and a copy with permuted assets and renamed nodes; the behaviour sets must coincide up to the permutation. Binding: the SAME TLC output is replayed into realisations under permutations of the asset list and a catalogue of injective renamings of assets, nodes and structured wrappers (digit-only names of different lengths, names that are prefixes/suffixes of each other, names containing the separators "__", "_internal_", " ("); feasibility, values and per-asset cash flows must agree, optima must be equal, traces found by the new names are validated.',
+                note=P_NOTE),
+    'C12': dict(engine='tlc-eaomodel', technique=P_TECH + '; the main time unit as a realisation axis of the same TLC output; unit-commitment pattern comparison under other units', cat='model_checking', ref='DESIGN.md 4 (C12)',
+                text='The TLA+ quantities are physical (rate x elapsed ticks); the SAME TLC behaviours and near-misses must be accepted/rejected and priced identically when the portfolio is realised with main time unit h, d, min (15min in the thorough tier) with rates and durations re-expressed: families with capacities, inflow, holding cost, maximum holding time, take periods, discounting (wacc=1, yearly steps), split routes, and grids with unequal steps (calendar days across both CET switches: 24/23/24, 24/25/24 hour ticks; months 31/28/31). Optimal values are compared across units; Plant on/off patterns are compared with the automaton under d and min.',
+                note=P_NOTE),
+    'C13': dict(engine='tlc-eaomodel', technique=P_TECH + '; coarse/periodic equalities as guards GroupChk/PeriodChk of the fine model', cat='model_checking', ref='DESIGN.md 4 (C13)',
+                text='The specification is the FINE model plus exactly the equalities (constant rate per coarse interval, same volume at the same position of every period within a duration; invariants GroupInv, PeriodInv); TLC enumerates all such schedules for every asset kind accepting the options (contract with one and two variables, transport, storage with one and two variables, multi-commodity); they are replayed into the coarse / periodic problem through the mapping rows (x_major from each minor step), non-constant schedules must not be representable, the optimum equals the lattice optimum of the constrained fine model, and the fine dispatch table of optimised runs is trace-validated.',
+                note=P_NOTE + ' Limits constant inside merged steps; coarse windows on coarse boundaries; wacc=0 for coarse assets.'),
+    'C16': dict(engine='tlc-eaomodel', technique=P_TECH + '; ScaledAsset / StructuredAsset as realisation routes of the same TLC output', cat='model_checking', ref='DESIGN.md 4 (C16)',
+                text='Scaled: the configuration states the asset AT scale s (capacities x s/norm, fixed cost s x rate per active tick as part of the step cost in EAOGuards); ScaledAsset(base, min=max=s) must accept exactly the TLC behaviours with equal per-asset value, near-misses rejected; free scale: optimum = best over the lattice of scales on families linear in the scale. Structured: wrapped (StructuredAsset incl. wrapper window clipping inner windows) and flat realisations conform to the same TLC behaviours, equal optimum.',
+                note=P_NOTE + ' Base assets without booleans.'),
 }
 
 ENGINES = [
